@@ -91,7 +91,8 @@ URLS = [
     "/a*b*c", "/a_b_", "http://xn--n3h.net/", "http://☃.net/", "http://a.b/[c]", "/%", "/%2", "/%25",
     "mailto:a@b.c", "http://xn--a-rc4g.com", "http://xn--xn.com/", "https://xn--1.example", "http://xn--γ.com/", "mailto:a@xn--a-rc4g.com", "//xn--a-rc4g.com/p", "http://[::1]/", "http://a.b:80/", "/\u00a0", "", "<", ">", "/a\\b", "/'q'",
 ]
-TITLES = ["t", "a b", 'q"r', "it's", "(p)", "a\\\"b", "&quot;e", "*e*", "<b>", "a\nb", "", "\\", "&amp;", "  s  "]
+TITLES = ["t", "a b", 'q"r', "it's", "(p)", "a\\\"b", "&quot;e", "*e*", "<b>", "a\nb", "", "\\", "&amp;", "  s  ",
+          "x\\\ny", "a\\\n", "a\n-\nb", "a\n    # b", "a\n1. b", "a\n> b", "a\n***", "&#X41;", "&#x41;", "a\n\tb"]
 HTML_INLINE = [
     "<a>", "<b>", "</b>", "<a href=\"x\">", "<a href='x' b=c d>", "<br/>", "<img src=x />", "<!-- c -->", "<!---->",
     "<!-->", "<!--->", "<!-- a -- b -->", "<?php x ?>", "<?>", "<!DOCTYPE x>", "<!x>", "<![CDATA[ x ]]>", "<![CDATA[>",
@@ -325,7 +326,13 @@ def refdef_lines(d: D) -> list[str]:
     dest = d.pick(["/u", "<a b>", "http://x.y/?q=1&r=2", "u(v)w", "\\(x", "&amp;x", "javascript:x", "/ü", "#f", "<>", "<", "u\"t\"", "/a*b"])
     if d.chance(0.1):
         dest = dest + d.pick(ENTITIES)
-    title = d.pick(["", "", ' "t"', " 't u'", " (p)", ' "a \\" b"', '\n"t2"', '\n  "multi\nline"', ' "un', " x", '\n"bad" x', ' "t"  '])
+    if d.chance(0.6):
+        title = d.pick(["", "", ' "t"', " 't u'", " (p)", ' "a \\" b"', '\n"t2"', '\n  "multi\nline"', ' "un', " x", '\n"bad" x', ' "t"  '])
+    else:
+        # built title: 1-3 lines, some ending in a backslash or looking like a block start
+        q = d.pick(['""', "''", "()"])
+        parts = [d.pick(["t", "a b", "x\\", "\\", "&amp;", "&#X41;", "\\" + q[1], "*e*", "-", "- ", "# h", "    i", "    # b", "1. o", "2. o", "+", "```", ">", "<b>", "===", "\tq"]) for _ in range(d.i(1, 3))]
+        title = d.pick([" ", "\n", "\n  ", "\t"]) + q[0] + "\n".join(parts) + q[1] + d.pick(["", "", " ", " x"])
     sep = d.pick([" ", " ", "\n", "  ", "\n   ", "\t", ""])
     ind = d.pick(["", "", "", " ", "   "])
     return (ind + "[" + lab + "]:" + sep + dest + title).split("\n")
@@ -689,7 +696,20 @@ def soup_d(d: D) -> str:
     return "".join(out)
 
 
+SURROGATE_RATE = 0.02  # share of documents that get surrogate code points inserted ("every Python string")
+SURROGATES = ["\ud800", "\udc00", "\ud800\udc00", "\udbff\udfff", "\udc00\ud800", "\ud83d", "\ude00"]
+
+
 def any_doc_d(d: D, tabs: bool = True, maxdepth: int = 3) -> str:
+    s = _any_doc_d(d, tabs, maxdepth)
+    if SURROGATE_RATE and d.chance(SURROGATE_RATE):
+        for _ in range(d.i(1, 3)):
+            i = d.i(0, len(s))
+            s = s[:i] + d.pick(SURROGATES) + s[i:]
+    return s
+
+
+def _any_doc_d(d: D, tabs: bool = True, maxdepth: int = 3) -> str:
     k = d.weighted([(42, "block"), (20, "corpus"), (13, "leaves"), (10, "soup"), (5, "inline"), (7, "delims"), (3, "unicode")])
     if k == "delims":
         body = delim_soup(d) if d.chance(0.4) else "".join(tight_nest(d) + d.pick(["", " "]) for _ in range(d.i(1, 3)))
